@@ -575,6 +575,12 @@ func runServerConn(r *eng.Run, s hsServer, p net.Conn, sent func() []byte, writa
 			break
 		}
 		u := ws.HTTPUpgrader{}
+		if s.WBuf%2 == 0 && len(s.Header)%2 == 0 {
+			// Half of the configurations bound the response write in time
+			// (nothing in the simulation ever takes that long).
+			u.Timeout = time.Hour
+			r.Probe("http_upgrader_with_timeout")
+		}
 		if s.Proto != 0 {
 			u.Protocol = func(p string) bool {
 				switch s.Proto {
